@@ -345,6 +345,8 @@ class ExcelCompiler:
         text_name = filename
         if not text_name.endswith(non_pickle_extension or '.yml'):
             text_name += '.' + (non_pickle_extension or 'yml')
+        text_mtime = (os.stat(text_name).st_mtime_ns
+                      if os.path.exists(text_name) else None)
         text_changed = self._to_text(text_name, is_json=is_json)
 
         # save pickle file if requested and has changed
@@ -352,7 +354,9 @@ class ExcelCompiler:
             if not filename.endswith(pickle_extension):
                 filename += '.' + pickle_extension
 
-            if text_changed or not os.path.exists(filename):
+            # a pickle older than the text file was not made from that text
+            if (text_changed or not os.path.exists(filename) or
+                    os.stat(filename).st_mtime_ns <= text_mtime):
                 excel_compiler = self._from_text(text_name, is_json=is_json)
                 if non_pickle_extension not in file_types:
                     os.unlink(text_name)
